@@ -1,6 +1,7 @@
 package main
 
 import (
+	"math"
 	"fmt"
 	"sort"
 	"strings"
@@ -55,7 +56,10 @@ func c03Ops(root string) []c03Op {
 		// ... and two rewrites that carry a long text and differ from each other only in its last byte
 		ops = append(ops, c03Op{kind: "np", node: n, typ: "v", ts: 2, val: 99, text: c03Long + "a"})
 		ops = append(ops, c03Op{kind: "np", node: n, typ: "v", ts: 2, val: 99, text: c03Long + "b"})
+		// negative zero: equal to 0 as a value, another bit pattern (and the database keeps one zero only)
+		ops = append(ops, c03Op{kind: "np", node: n, typ: "v", ts: 2, val: math.Copysign(0, -1)})
 	}
+	ops = append(ops, c03Op{kind: "ep", node: "A", parent: root, typ: "role", ts: 2, val: math.Copysign(0, -1)})
 	parents := map[string][]string{"A": {root}, "B": {root, "A"}, "C": {root, "A", "B"}}
 	for _, n := range c03Nodes {
 		for _, p := range parents[n] {
